@@ -26,6 +26,7 @@ func init() {
 			ruleParamLookupCommaOk(c, "R4")
 			ruleRegexpQuoting(c, "R2c")
 			ruleInterceptorShorthands(c, "R7")
+			ruleGroupOptionOrder(c, "R9")
 			ruleRequestPathIsMatched(c, "R8")
 			ruleSearchTriesEverySibling(c, "R6", []*ssa.Function{c.A.TreeURL}, "strict URL building succeeds for every live route: the route lookup tries every sibling")
 		},
